@@ -56,6 +56,14 @@ theorem fields_in_range :
     magTypeTableList.all (fun t => decide (1 ≤ t.number) && decide (t.number ≤ 230)) = true := by
   decide +kernel
 
+/-- The Hall entries listed by the two setting tables for type `n` carry `number = n`
+(cf. `C03.spglib_is_smallest`, `C03.standard_is_ita`, stated there on the `Array` forms). -/
+theorem setting_numbers :
+    ((List.range 230).all fun k =>
+      ((hallTableList[(spglibHallNumbers.toList[k]?).getD 0 - 1]?).map (·.number)) == some (k + 1) &&
+      ((hallTableList[(standardHallNumbers.toList[k]?).getD 0 - 1]?).map (·.number)) == some (k + 1)) = true := by
+  decide +kernel
+
 /-- Every centring has as many lattice points as its order. -/
 theorem lattice_order : ∀ c : Centering, c.latticePoints.length = c.order := by
   intro c; cases c <;> rfl
